@@ -1,0 +1,21 @@
+//go:build verif
+
+package tubes
+
+import "time"
+
+// VerifFramesToSend evaluates sender.framesToSend on a sender whose retransmission buffer holds
+// nframes entries and whose window bookkeeping (window size, frames in flight, consecutive
+// retransmission timeouts) has the given values.
+func VerifFramesToSend(window, unacked uint16, rtoCounter, nframes int, rto bool, start int) int {
+	s := newSender(verifLog())
+	defer s.Close()
+	s.senderWindow.windowSize = window
+	s.unacked = unacked
+	s.rtoCounter = rtoCounter
+	s.frames = make([]struct {
+		*frame
+		time.Time
+	}, nframes)
+	return s.framesToSend(rto, start)
+}
